@@ -33,6 +33,9 @@ def run(ctx, R, tier):
     # 'in the same chunk in which the modulator produced it', whatever state the owner is in: a linked parameter is updated
     # before any freeze gate of its owner, on every path
     c06.ungated(F, R, rule='B.C17.ungated')
+    # a request made before a modulator's first callback is read in that callback: new modulators are picked up before they are polled
+    from .c07 import first as polled_after_pickup
+    polled_after_pickup(F, R)
     c06.accumulators(F, R, rule='B.C17.accumulate')
     from ..enginea import run_singular_only
     run_singular_only(R, F, lambda fn: 'value::Mapping' in fn or 'modulator::' in fn, floor=2)
